@@ -8,8 +8,7 @@ from checks import C10 as P
 
 MODULE = "Nice.Props.C08"
 THEOREMS = [f"Nice.Props.C08.{t}" for t in (
-    "C08_fifo_write_read_roundtrip", "C08_fifo_read_prefix", "C08_sender_payload_from_ring",
-    "C08_receiver_inorder_append_partial", "C08_trim_within_window", "C08_eos_requires_in_sequence_fin")]
+    "C08_blit_content",)]
 TRUSTED = P.TRUSTED[:3] + [
     "stream oracle: bytes accepted by send() (its return value) vs bytes returned by recv(), evaluated on the real code",
     "sequence numbers do not wrap within a connection (streams < 2^31 bytes; ISN is 0 in this code)",
